@@ -2,10 +2,8 @@ SPECIFICATION Spec
 CONSTANTS
   Keys = {"a", "b"}
   Vals = {"x", "y"}
-  MaxIdx = 2
-  MaxOps = 5
-  MaxDepth = 3
-  MaxSize = 7
-CONSTRAINT Bound
-INVARIANTS TypeOK RoundTrip ExportPure ImportReplaces KindPreserved LeafCount
+  MaxLen = 2
+  DocDepth = 2
+  MaxOps = 3
+INVARIANTS TypeOK RoundTrip ExportPure ImportReplaces KindPreserved LeafCount Injective
 CHECK_DEADLOCK FALSE
